@@ -18,6 +18,7 @@ import itertools
 import os
 import re
 import shutil
+import sys
 import tempfile
 import warnings
 
@@ -1132,6 +1133,193 @@ class Filter(C.Stream):
         yield from shrink_selection(case)
 
 
+# ----------------------------------------------------------------------------------------------
+# C12.dirload (fifth seeded round): the project is WRITTEN as a suites directory — a module per suite (`SUITE = {description,
+# tags, properties, links, rank}` + test functions), its sub-suites either as modules of the companion directory `<suite>/` or as
+# nested classes — loaded by the real `Project(dir).load_suites()` (= `load_suites_from_directory`) and filtered by the real
+# `load_suites_from_project(project, filter)`.  What a test inherits from its enclosing suites therefore comes through the
+# loader: a module that only carries the metadata of its suite (no test of its own, all tests in `<suite>/*.py`) included.
+# ----------------------------------------------------------------------------------------------
+
+def _deco_meta(n, ind):
+    out = []
+    if n["tags"]:
+        out.append(ind + "@lcc.tags(%s)" % ", ".join(repr(t) for t in n["tags"]))
+    for k, v in n["props"]:
+        out.append(ind + "@lcc.prop(%r, %r)" % (k, v))
+    for u, nm in n["links"]:
+        out.append(ind + "@lcc.link(%r, %r)" % (u, nm))
+    if n["disabled"]:
+        out.append(ind + ("@lcc.disabled()" if n["disabled"] is True else "@lcc.disabled(%r)" % n["disabled"]))
+    return out
+
+
+def _tests_src(tests, ind, method):
+    out = []
+    for i, n in enumerate(tests):
+        out.append(ind + "@lcc.test(%r, name=%r)" % (n["desc"], n["name"]))
+        out += _deco_meta(n, ind)
+        out += [ind + "def t%d(%s):" % (i, "self" if method else ""), ind + "    pass", ""]
+    return out
+
+
+def _class_src(t, ind, i):
+    n = t["node"]
+    out = [ind + "@lcc.suite(%r, name=%r)" % (n["desc"], n["name"])] + _deco_meta(n, ind) + [ind + "class S%d:" % i]
+    body = _tests_src(t["tests"], ind + "    ", True)
+    for j, sub in enumerate(t["subs"]):
+        body += _class_src(sub, ind + "    ", j)
+    return out + (body or [ind + "    pass"]) + [""]
+
+
+def render_dir_project(trees, root):
+    """root/<name>.py per tree (+ root/<name>/ for sub-suites written as modules)"""
+    os.makedirs(root, exist_ok=True)
+    for rank, t in enumerate(trees):
+        n = t["node"]
+        ents = ["'description': %r" % n["desc"], "'rank': %d" % rank]
+        if n["tags"]:
+            ents.append("'tags': %r" % list(n["tags"]))
+        if n["props"]:
+            ents.append("'properties': {%s}" % ", ".join("%r: %r" % (k, v) for k, v in n["props"]))
+        if n["links"]:
+            ents.append("'links': [%s]" % ", ".join(repr(u) if nm is None else repr((u, nm)) for u, nm in n["links"]))
+        lines = ["# -*- coding: utf-8 -*-", "import lemoncheesecake.api as lcc", "", "SUITE = {%s}" % ", ".join(ents), ""]
+        lines += _tests_src(t["tests"], "", False)
+        if t.get("how", "dir") == "class":
+            for j, sub in enumerate(t["subs"]):
+                lines += _class_src(sub, "", j)
+        elif t["subs"]:
+            render_dir_project(t["subs"], os.path.join(root, n["name"]))
+        with open(os.path.join(root, n["name"] + ".py"), "w", encoding="utf-8") as fh:
+            fh.write("\n".join(lines) + "\n")
+
+
+def normalise_for_directory(t, module=True, rng=None, p_class=0.35):
+    """the same tree in the form a suites directory can declare: a module suite cannot be disabled, an empty description is
+    replaced by the decorators' default, sub-suites are written as modules of the companion directory or as nested classes"""
+    def node(n, mod):
+        n = dict(n, desc=n["desc"] if n["desc"] != "" else "no description")
+        if mod:
+            n["disabled"] = False
+        return n
+    how = "dir" if module and (rng is None or rng.random() >= p_class) else "class"
+    if not module:
+        how = "class"
+    subs = [normalise_for_directory(s, how == "dir", rng, p_class) for s in t["subs"]]
+    if how == "dir":
+        # a module / directory suite without any test below is not part of the loaded project (the loader drops it)
+        subs = [s for s in subs if _has_tests(s)]
+    return {"node": node(t["node"], module), "tests": [node(x, False) for x in t["tests"]], "how": how, "subs": subs}
+
+
+def _has_tests(t):
+    return bool(t["tests"]) or any(_has_tests(s) for s in t["subs"])
+
+
+def dir_features(trees, out, depth=0):
+    for t in trees:
+        if t.get("how", "dir") == "dir" and t["subs"]:
+            out.add("module+companion-directory")
+            if not t["tests"]:
+                out.add("metadata-only-module+companion-directory")
+                n = t["node"]
+                if n["tags"] or n["props"] or n["links"]:
+                    out.add("metadata-only-module-with-inheritable-metadata")
+        if t.get("how") == "class" and t["subs"]:
+            out.add("nested-classes")
+        dir_features(t["subs"], out, depth + 1)
+
+
+class DirLoad(Filter):
+    name = "C12.dirload"
+    quick_cases = 500
+    thorough_cases = 6000
+    quick_seconds = 14
+    thorough_seconds = 100
+    chunk = 50
+    corpus = [
+        # minimised failing input of the seeded change C12-11: api.py holds only SUITE metadata, the tests live in api/users.py
+        {"mode": "cli", "cli": dict(empty_cli(), tags=[["api"]]), "suites": [
+            _s("api", [], [dict(_s("users", [_t("create"), _t("delete", tags=["slow"])]), how="dir")], tags=["api"], how="dir"),
+            dict(_s("tools", [_t("noop")]), how="dir")]},
+        {"mode": "cli", "cli": dict(empty_cli(), tags=[["^api"]]), "suites": [
+            _s("api", [], [dict(_s("users", [_t("create")]), how="dir")], tags=["api"], how="dir"), dict(_s("tools", [_t("noop")]), how="dir")]},
+        {"mode": "api", "cli": dict(empty_cli(), props=[[["layer", "rest"]]], links=[["bug*"]], descs=[["The API"]]), "suites": [
+            _s("api", [], [dict(_s("v1", [], [dict(_s("users", [_t("create", tags=["slow"])]), how="dir")], how="dir"))],
+               desc="The API", props=[["layer", "rest"]], links=[["http://x/1", "bug 1"]], how="dir"),
+            dict(_s("tools", [_t("noop", props=[["layer", "rest"]])]), how="dir")]},
+        {"mode": "cli", "cli": dict(empty_cli(), tags=[["db"], ["^slow"]]), "suites": [
+            _s("s", [_t("a", tags=["slow"])], [_s("u", [_t("c")], [_s("w", [_t("d", tags=["slow"])], how="class")], tags=["db"], how="class")],
+               tags=["ui"], how="class")]},
+    ]
+
+    def gen(self, rng, i):
+        n = rng.randint(1, 3)
+        names, descs = rng.sample(NAMES, len(NAMES)), rng.sample(DESCS, len(DESCS))
+        trees = [normalise_for_directory(gen_tree(rng, rng.randint(1, 3), 3, 2, names, descs, False), True, rng) for _ in range(n)]
+        trees = [t for t in trees if _has_tests(t)]
+        if trees and rng.random() < 0.5:
+            # a suite whose module only carries metadata: its tests move into a sub-suite of the companion directory
+            t = rng.choice(trees)
+            if t["tests"] and t["how"] == "dir":
+                free = [x for x in NAMES if x not in [s["node"]["name"] for s in t["subs"]]]
+                t["subs"].append({"node": gen_node(rng, rng.choice(free), "moved %d" % i, disabled_p=0), "tests": t["tests"], "subs": [], "how": "dir"})
+                t["subs"][-1]["node"]["disabled"] = False
+                t["tests"] = []
+        cli = empty_cli() if rng.random() < 0.04 else gen_filter(rng, trees)
+        mode = "cli" if rng.random() < 0.6 else "api"
+        if mode == "cli" and (cli_argv(cli) is None or has_colon(cli)) and rng.random() < 0.9:
+            mode = "api"
+        return {"mode": mode, "cli": cli, "suites": trees}
+
+    def impl(self, case):
+        F, T, SC, U, Project, UserError, R = _lcc()
+        from lemoncheesecake.suite import builder
+        flt, rej = self._filter(case)
+        if flt is None:
+            return {"outcome": rej}
+        top = os.path.realpath(tempfile.mkdtemp(prefix="lccverif-c12dir-"))
+        old_dwb = sys.dont_write_bytecode
+        sys.dont_write_bytecode = True
+        try:
+            render_dir_project(case["suites"], os.path.join(top, "suites"))
+            builder._objects_with_metadata.clear()
+            try:
+                kept = U.load_suites_from_project(Project(top), flt)
+            except UserError as e:
+                return {"outcome": classify_user_error(e)}
+            except Exception as e:
+                return {"outcome": "raised:" + type(e).__name__, "message": str(e)[:300]}
+            return {"outcome": "ok", "tests": [t.path for t in T.flatten_tests(kept)],
+                    "suites": [s.path for s in T.flatten_suites(kept)],
+                    "empty_suites": [s.path for s in T.flatten_suites(kept) if s.is_empty()],
+                    "inherited": [[t.path, sorted(t.hierarchy_tags), sorted(map(list, t.hierarchy_properties.items()))]
+                                  for t in T.flatten_tests(kept)]}
+        finally:
+            sys.dont_write_bytecode = old_dwb
+            for k in [k for k in sys.modules if isinstance(k, str) and k.startswith(top)]:
+                del sys.modules[k]
+            builder._objects_with_metadata.clear()
+            shutil.rmtree(top, ignore_errors=True)
+
+    def oracle(self, case, obs):
+        out = obs.get("outcome", "")
+        if out in ("cli-cannot-express", "cli-rejected", "cli-parsed-differently"):
+            return []
+        return oracle_selection(case, obs, prefix="C12/dirload")
+
+    def nontrivial(self, case, obs):
+        feats = set()
+        dir_features(case["suites"], feats)
+        return Filter.nontrivial(self, case, obs) and "module+companion-directory" in feats
+
+    def features(self, case, obs):
+        feats = set()
+        dir_features(case["suites"], feats)
+        return sorted(set(selection_features(case, obs)) | {"dir:" + f for f in feats})
+
+
 def compare_selection(obs, ans):
     if "error" in ans:
         return "model error: " + str(ans["error"])
@@ -1753,7 +1941,7 @@ class ReportStream(C.Stream):
 
 
 def streams(ctx):
-    return [Glob(), Filter(), ReportStream()]
+    return [Glob(), Filter(), DirLoad(), ReportStream()]
 
 
 # ----------------------------------------------------------------------------------------------
